@@ -358,6 +358,30 @@ def fam_health(tier, seed):
             steps.append({"at": H // 2, "do": "start", "i": "B"})
         hang.append(scn("health-hang-%d" % k, seed * 1000 + 800 + k, H, ratio, insts, steps, "health", int((len(pre) + 14) * H + 3 * ratio * H) + 3 * S))
     out += hang
+    # a streak of unhealthy results interrupted by a stop and restart of the same object (the count belongs to one term) ...
+    for k in range(6 if tier == "quick" else 40):
+        H = rng.choice([200 * MS, 500 * MS, 1 * S])
+        N = rng.choice([0, 2, 3, 4])
+        n_eff = 3 if N == 0 else N
+        first = rng.randrange(1, n_eff)                       # unhealthy ticks before the stop: below the threshold
+        sq = "h" + "u" * first + "h" * 3 + "u" * (n_eff + 1)  # (results are consumed per call, across terms)
+        t_stop = int((1 + first + 0.5) * H)
+        insts = [inst("A", health_n=N, health="h" + "u" * first + "u" * (n_eff + 2), health_rest="h")]
+        steps = [{"at": 0, "do": "start", "i": "A"}, dict(rng.choice(STOP_VARIANTS), at=t_stop, i="A"),
+                 {"at": t_stop + 6 * S + 500 * MS, "do": "start", "i": "A"}]
+        out.append(scn("health-restart-in-streak-N%d-%d-%d" % (N, first, k), seed * 1000 + 700 + k, H, 5.0, insts, steps, "health",
+                       t_stop + 7 * S + (n_eff + 6) * H + 15 * H))
+    # ... or by a reconnect whose verification succeeds (neither a healthy result nor a new term)
+    for k in range(6 if tier == "quick" else 40):
+        H = rng.choice([500 * MS, 1 * S])
+        N = rng.choice([0, 3, 4])
+        n_eff = 3 if N == 0 else N
+        after = rng.randrange(1, n_eff)                       # the reconnect arrives after that many unhealthy ticks
+        insts = [inst("A", health_n=N, health="h" + "u" * (n_eff + 3), health_rest="h", conn=True)]
+        t_d = int((1 + after + 0.2) * H)
+        steps = [{"at": 0, "do": "start", "i": "A"}, {"at": t_d, "do": "disc", "i": "A"}, {"at": t_d + H // 10, "do": "reconn", "i": "A"}]
+        out.append(scn("health-reconnect-in-streak-N%d-%d-%d" % (N, after, k), seed * 1000 + 750 + k, H, 5.0, insts, steps, "health",
+                       (n_eff + 12) * H + 3 * S, lat=int(H * 0.05)))
     for k, sq in enumerate(seqs):
         H = rng.choice([200 * MS, 500 * MS, 1 * S])
         ratio = rng.choice([3.0, 3.5, 5.0])
@@ -455,6 +479,24 @@ def fam_conn(tier, seed):
                  {"at": t1 + 200 * MS, "do": "out_put", "cls": "as:B"},
                  {"at": t1 + 200 * MS + 2300 * MS, "do": "disc", "i": "A"}]
         out.append(scn("conn-stale-grace-timer-%d" % k, seed * 1000 + 970 + k, H, 5.0, insts, steps, "conn", t1 + 3 * grace + 2 * S, lat=20 * MS, watch=30 * MS))
+    # ... and the same without the second notification: the grace period of the first one still covers the later term
+    for k in range(3 if tier == "quick" else 20):
+        H = 500 * MS
+        grace = rng.choice([4200, 4400, 4600]) * MS
+        t1 = int((2.2 + rng.random()) * H)
+        insts = [inst("A", conn=True, grace_us=grace)]
+        steps = [{"at": 0, "do": "start", "i": "A"}, {"at": t1, "do": "disc", "i": "A"}, {"at": t1 + 200 * MS, "do": "out_put", "cls": "as:B"}]
+        out.append(scn("conn-grace-covers-later-term-%d" % k, seed * 1000 + 980 + k, H, 5.0, insts, steps, "conn", t1 + 3 * grace + 2 * S, lat=20 * MS, watch=30 * MS))
+    # a stop call issued while the reconnect handler stands between its leader check and the start of the verification
+    # (scheduler gate at the handler's log line)
+    for k in range(4 if tier == "quick" else 24):
+        H = rng.choice([500 * MS, 1 * S])
+        t = int((1.4 + rng.random()) * H)
+        insts = [inst("A", conn=True, grace_us=4 * H, gate_log="verifying_leadership_after_reconnect"), inst("B")]
+        steps = [{"at": 0, "do": "start", "i": "A"}, {"at": H // 3, "do": "start", "i": "B"},
+                 {"at": t - H // 4, "do": "disc", "i": "A"}, {"at": t, "do": "reconn", "i": "A"},
+                 dict(STOP_VARIANTS[k % len(STOP_VARIANTS)], at=t + 1, i="A"), {"at": t + 1, "do": "release_gate", "i": "A"}]
+        out.append(scn("conn-stop-inside-reconnect-handler-%d" % k, seed * 1000 + 990 + k, H, 3.0, insts, steps, "conn", t + 8 * S, lat=int(H * 0.04)))
     # a connection notification delivered while a stop call is inside its critical section (same scheduler gate)
     for k in range(6 if tier == "quick" else 36):
         H = rng.choice([200 * MS, 500 * MS, 1 * S])
@@ -527,6 +569,12 @@ def fam_validate(tier, seed):
             steps.append({"at": rng.randrange(H, 6 * H), "do": "validate", "i": rng.choice([x["id"] for x in insts]),
                           "vod": rng.random() < 0.5, "ctx_us": rng.choice([0, 0, -1, 100 * MS])})
         end = 10 * H + 5 * S
+        if rng.random() < 0.25:     # the caller's connection is reported lost (and perhaps back) around the call
+            insts[0]["conn"] = True
+            insts[0]["grace_us"] = 20 * S
+            steps.append({"at": max(1, t - rng.randrange(1, H)), "do": "disc", "i": "A"})
+            if rng.random() < 0.3:
+                steps.append({"at": t + rng.randrange(1, 2 * H), "do": "reconn", "i": "A"})
         out.append(scn("val-%s-%s-%s-%d" % (cls.replace(":", "_"), "vod" if vod else "v", mode, k), seed * 1000 + k, H, ratio,
                        insts, steps, "validate", end, rules=rules, part_timeout_us=2 * S))
     return out
@@ -671,6 +719,38 @@ def fam_regress(tier, seed):
                        [inst("A", prio=3), inst("B", prio=2, takeover=True)],
                        [{"at": 0, "do": "start", "i": "A"}, {"at": H // 4, "do": "start", "i": "B"}], "regress", 6 * H + 2 * S, lat=20 * MS, watch=30 * MS,
                        rules=[{"match": {"i": "B", "kind": "get", "src": "takeover"}, "fault": "fail:notfound", "from_nth": 2, "count": 0}]))
+        # 17. the answer of a successful Create arrives after the record it created has expired and a successor's record has been
+        #     observed: the late promotion must not combine its own token with the successor's revision
+        H1 = 1 * S
+        out.append(scn("reg-late-create-answer-after-successor-%d" % k, seed * 1000 + k, H1, 3.0, [inst("A"), inst("B"), inst("C")], [
+            {"at": 0, "do": "start", "i": "A"}, {"at": H1 // 10, "do": "start", "i": "B"},
+            {"at": int(2.5 * H1), "do": "stopctx", "i": "A", "del": True}, {"at": 3 * H1, "do": "start", "i": "C"},
+            {"when": {"i": "B", "kind": "create", "src": "acq", "nth": 6, "phase": "post"}, "do": "noop",
+             "then": [{"do": "sleep", "us": rng.choice([4050, 4100, 4150]) * MS}]},
+            {"when": {"i": "C", "kind": "update", "src": "hb", "nth": 1, "phase": "pre"}, "do": "noop", "then": [{"do": "sleep", "us": 1600 * MS}]}],
+            "regress", 14 * H1 + 2 * S, lat=20 * MS, watch=30 * MS))
+        # 18. followers whose connection was reported lost and back: they still take part (periodic check without notifications,
+        #     takeover of a lower-priority leader that won the race because this follower's notifications are late)
+        out.append(scn("reg-follower-after-reconnect-fills-vacancy-%d" % k, seed * 1000 + k, H, ratio, [inst("A"), inst("B", conn=True)], [
+            {"at": 0, "do": "start", "i": "A"}, {"at": H // 4, "do": "start", "i": "B"},
+            {"at": int(1.5 * H), "do": "disc", "i": "B"}, {"at": int(1.8 * H), "do": "reconn", "i": "B"},
+            {"at": 3 * H, "do": "stopctx", "i": "A", "del": True}], "regress", 6 * H + 4 * S, lat=20 * MS, watch=30 * MS,
+            rules=[{"match": {"i": "B", "kind": "deliver"}, "fault": "drop", "from_nth": 3, "count": 0}]))
+        out.append(scn("reg-follower-after-reconnect-preempts-%d" % k, seed * 1000 + k, H1, 5.0,
+                       [inst("A", prio=3), inst("C", prio=1), inst("B", prio=2, takeover=True, conn=True)], [
+            {"at": 0, "do": "start", "i": "A"}, {"at": H1 // 4, "do": "start", "i": "C"}, {"at": H1 // 2, "do": "start", "i": "B"},
+            {"at": int(1.5 * H1), "do": "disc", "i": "B"}, {"at": int(1.8 * H1), "do": "reconn", "i": "B"},
+            {"at": 3 * H1, "do": "stopctx", "i": "A", "del": True}], "regress", 9 * H1 + 2 * S, lat=20 * MS, watch=30 * MS,
+            rules=[{"match": {"i": "B", "kind": "deliver"}, "fault": "slow:400000", "from_nth": 1, "count": 0}]))
+        # 19. a heartbeat tick held by a hanging health check while the leader is preempted and, as a follower, observes its
+        #     successor's next refresh: when the check returns the tick must not go on to the Update
+        out.append(scn("reg-hanging-check-across-preemption-%d" % k, seed * 1000 + k, H1, 5.0,
+                       [inst("A"), inst("B", prio=1, health_n=3, health="hhx", health_rest="h", health_hang_us=int(1.9 * H1)),
+                        inst("C", prio=2, takeover=True)], [
+            {"at": 0, "do": "start", "i": "A"}, {"at": H1 // 4, "do": "start", "i": "B"},
+            {"at": int(1.2 * H1), "do": "stopctx", "i": "A", "del": True},
+            {"at": int(4.8 * H1), "do": "start", "i": "C"}],
+            "regress", 12 * H1 + 2 * S, lat=20 * MS, watch=30 * MS))
         # 15. a follower-side read (periodic check) issued before the instance won the election is answered only after a
         #     higher-priority instance has taken its record over: the read must not touch the leader's own bookkeeping
         H1 = 1 * S
